@@ -1,6 +1,6 @@
 SPECIFICATION WdOnlySpec
 CONSTANTS
-  Nodes = {"n1"}
+  Nodes = {"n1", "n2"}
   AsyncNodes = {}
   Kinds = {"ts", "spl"}
   ParallelNum = 1
@@ -15,8 +15,8 @@ CONSTANTS
   QDefaultSync = FALSE
   QHeaderIgnored = FALSE
   WT = 1
-  MaxNow = 16
+  MaxNow = 11
   WdKinds <- WdKindsLogs
-  QWdFirst = TRUE
-INVARIANTS WdExitOnlyIfStale
+  QWdFirst = FALSE
+INVARIANTS WdExitOnlyIfStale WdNoStaleSkipped WdExitWithinPeriod
 CHECK_DEADLOCK FALSE
